@@ -40,6 +40,10 @@ CATALOGUE = [
     ('\\begin{thm}[o] t \\end{thm} \\LTadd{x} \\LTskip{y}', {}, False),                                      # 18 not declared
     ('A \\foreignlanguage{german}{B} C $u$', {'pack': 'babel', 'lang': 'de-DE', 'repl': ['A & XYZ']}, True),   # 19
     ('\\documentclass{scrbook}\\KOMAoption{x} a', {'unkn': True}, False),                                    # 20 class, unknowns
+    ('\\usepackage[poorman]{cleveref}\\YYCleverefInput{/tmp/yvfiles/a.sed}see \\cref{eq:1} x', {}, False),        # 21 cleveref replacement table read
+    ('\\usepackage[poorman]{cleveref}\\YYCleverefInput{/tmp/yvfiles/b.sed}see \\cref{eq:1} x', {}, False),        # 22 ... from a file without that label
+    ('\\usepackage{babel}A \\foreignlanguage{czech}{ahoj} b', {'lang': 'en-GB'}, True),                       # 23 a language name babel does not know
+    ('\\usepackage[czech]{babel}Ahoj.', {'lang': 'fr'}, True),                                               # 24 ... as package option
 ]
 
 
@@ -48,6 +52,10 @@ def make_files():
     content = '\\gls@defglossaryentry{ab}{name={ab},text={abt},plural={abts},description={d}}\n'
     if not os.path.exists(GLS) or open(GLS).read() != content:
         open(GLS, 'w').write(content)
+    for name, content in (('a.sed', 's/\\\\cref{eq:1}/equation 1/g\n'), ('b.sed', 's/\\\\cref{eq:2}/equation 2/g\n')):
+        p = os.path.join('/tmp/yvfiles', name)
+        if not os.path.exists(p) or open(p).read() != content:
+            open(p, 'w').write(content)
 
 
 def proc_digest():
